@@ -75,6 +75,10 @@ func c08Run(env *core.Env, idx int) *core.CaseResult {
 			p.Steps *= 2
 			h, fatal = crashlab.RunConcurrent(r, fmt.Sprintf("%s/c08_%d", env.TmpDir, idx), p)
 		} else {
+			if idx%8 == 6 {
+				bigTxnParams(r, &p) // single transactions larger than the log buffer (the buffer-full path of AppendLogRecord)
+				res.Add("histories_with_a_transaction_larger_than_the_log_buffer", 1)
+			}
 			h, fatal = crashlab.Run(r, fmt.Sprintf("%s/c08_%d", env.TmpDir, idx), p)
 		}
 		if fatal != "" {
